@@ -1044,7 +1044,7 @@ def C19(tier, seed):
                "monitor_counters": res["counts"], "predicate_failures": len(allbads),
                "known_findings_hit": [{"id": f["id"], "count": c} for f, c in known + k0],
                "exhaustive": len(scens) < limit, "harness_build_s": round(build_s, 1)}
-        C.write_evidence(pid, tier, seed, "fault_enumeration", cov,
+        C.write_evidence(pid, tier, seed, "model_checking", cov,
                          A_COMMON + ["a failure is injected before the effect (the call is skipped and an io::Error of kind "
                                      "Other returned); partially performed effects (short writes) are not produced",
                                      "failures inside the background cleanup thread are not reported by design (they keep "
